@@ -19,7 +19,10 @@
 //!   scen <tokens>          one scenario;   output  `<r1>,<r2>,... | <steps of op1> ; <steps of op2> ...`
 //!   scenq <tokens>         the same without the step logs
 //!   enum <i> <tokens>      every step k and every canonical variant of token i (0-based);
-//!                          output one field `X<k>.<variant>=<r1>,<r2>,...` per combination
+//!                          output one field `X<k>.<variant>=<r1>,<r2>,...` per combination;
+//!                          the death at step k is simulated in-process (hook mode Freeze: step k and
+//!                          every later step are refused, then the engine is dropped)
+//!   enumf <i> <tokens>     the same with a real abort() in a forked process
 //! Each part of a scenario between two crashes runs in its own child process (`nvh child crash …`);
 //! the parent reconstructs the power-loss image from the hook's undo journal.
 use super::{State, StreamDef};
@@ -326,7 +329,8 @@ fn child(args: &[String]) -> i32 {
     child_run(args, 'F')
 }
 
-/// `mode`: 'F' hooks on with undo journal (segments that may die), 'I' hooks on without journal
+/// `mode`: 'F' hooks on with undo journal (segments that die by abort(), forked), 'Z' the same with
+/// the death simulated in this process (hook mode Freeze), 'I' hooks on without journal
 /// (step logs, injected errors), 'Q' hooks off (continuations whose step logs nobody reads)
 fn child_run(args: &[String], mode: char) -> i32 {
     if args.len() < 2 {
@@ -350,8 +354,18 @@ fn child_run(args: &[String], mode: char) -> i32 {
         None => return 2,
     };
     match mode {
-        'F' => verif_io::enable(true, Some(&dir)),
-        'I' => verif_io::enable(false, None),
+        'F' => {
+            verif_io::clear_all();
+            verif_io::enable(true, Some(&dir))
+        }
+        'Z' => {
+            verif_io::clear_all();
+            verif_io::enable(true, Some(&dir))
+        }
+        'I' => {
+            verif_io::clear_all();
+            verif_io::enable(false, None)
+        }
         _ => verif_io::disable(),
     }
     let _ = verif_io::take_log();
@@ -361,7 +375,7 @@ fn child_run(args: &[String], mode: char) -> i32 {
     for tok in &toks {
         match tok {
             Tok::Crash(k, _) => {
-                verif_io::arm(verif_io::Mode::Abort, *k);
+                verif_io::arm(if mode == 'Z' { verif_io::Mode::Freeze } else { verif_io::Mode::Abort }, *k);
                 armed = Some("crash");
                 continue;
             }
@@ -382,10 +396,18 @@ fn child_run(args: &[String], mode: char) -> i32 {
             }
         };
         if armed.is_some() {
-            if !verif_io::fired() {
+            let fired = verif_io::fired();
+            if !fired {
                 r.push('~');
             }
             verif_io::disarm();
+            if mode == 'Z' && armed == Some("crash") && fired {
+                // simulated process death at that step: nothing was performed from it on (the hook
+                // refused every later step); the engine is dropped without any further I/O
+                verif_io::disable();
+                drop(w);
+                return 1;
+            }
             armed = None;
         }
         let steps = if matches!(tok, Tok::Dump) { let _ = verif_io::take_log(); "-".to_string() } else { steps_string() };
@@ -688,6 +710,8 @@ thread_local! {
     static SLOT: std::cell::Cell<usize> = const { std::cell::Cell::new(0) };
     /// continuations of enumerated crashes: only the results are reported
     static QUIET: std::cell::Cell<bool> = const { std::cell::Cell::new(false) };
+    /// crashes of `enum` lines: simulated in the worker process (hook mode Freeze) instead of abort() in a fork
+    static FREEZE: std::cell::Cell<bool> = const { std::cell::Cell::new(false) };
 }
 
 fn pool() -> &'static Vec<std::sync::Mutex<Option<WorkerProc>>> {
@@ -704,7 +728,13 @@ pub struct OpOut {
 fn run_child(_stream: &str, dir: &Path, txs: &[(u32, u32, u32)], toks: &[String]) -> (Vec<OpOut>, bool) {
     use std::io::BufRead;
     let has_crash = toks.iter().any(|t| matches!(parse_tok(t), Some(Tok::Crash(..))));
-    let mode = if has_crash { 'F' } else if QUIET.with(|q| q.get()) { 'Q' } else { 'I' };
+    let mode = if has_crash {
+        if FREEZE.with(|q| q.get()) { 'Z' } else { 'F' }
+    } else if QUIET.with(|q| q.get()) {
+        'Q'
+    } else {
+        'I'
+    };
     let txarg = if txs.is_empty() {
         "-".to_string()
     } else {
@@ -813,6 +843,33 @@ pub fn run_scenario(stream: &str, toks: &[String]) -> Vec<OpOut> {
     run_from(stream, &dir, &mut txs, toks, &mut outs);
     let _ = std::fs::remove_dir_all(&dir);
     outs
+}
+
+/// fingerprint of the database files in `dir` (names, lengths, contents)
+fn image_key(dir: &Path) -> Vec<u8> {
+    let mut names: Vec<PathBuf> = std::fs::read_dir(dir)
+        .map(|rd| rd.flatten().filter(|e| e.file_type().map(|t| t.is_file()).unwrap_or(false)).map(|e| e.path()).collect())
+        .unwrap_or_default();
+    names.sort();
+    let mut key = Vec::new();
+    for n in names {
+        let data = std::fs::read(&n).unwrap_or_default();
+        let name = n.file_name().map(|s| s.to_string_lossy().to_string()).unwrap_or_default();
+        key.extend_from_slice(name.as_bytes());
+        key.push(0);
+        key.extend_from_slice(&(data.len() as u64).to_le_bytes());
+        let mut h1 = crc32fast::Hasher::new();
+        h1.update(&data);
+        key.extend_from_slice(&h1.finalize().to_le_bytes());
+        // second, independent digest (FNV-1a 64) so that a CRC collision alone cannot merge two images
+        let mut h2: u64 = 0xcbf29ce484222325;
+        for b in &data {
+            h2 ^= *b as u64;
+            h2 = h2.wrapping_mul(0x100000001b3);
+        }
+        key.extend_from_slice(&h2.to_le_bytes());
+    }
+    key
 }
 
 fn copy_dir(from: &Path, to: &Path) {
@@ -973,6 +1030,7 @@ pub fn run_enum(stream: &str, idx: usize, toks: &[String], marker: char) -> Stri
         txs: Vec<(u32, u32, u32)>,
         killed: bool,
     }
+    let t0 = std::time::Instant::now();
     let nk = pend.len();
     let crashed: Vec<std::sync::Mutex<Option<Crashed>>> = (0..nk).map(|_| std::sync::Mutex::new(None)).collect();
     par_for(nk, &|k| {
@@ -982,10 +1040,13 @@ pub fn run_enum(stream: &str, idx: usize, toks: &[String], marker: char) -> Stri
         seg.push(toks[idx].clone());
         let mut outs = Vec::new();
         let mut txs = Vec::new();
+        FREEZE.with(|q| q.set(marker == 'X'));
         let killed = run_segment(stream, &dir, &mut txs, &seg, &mut outs);
+        FREEZE.with(|q| q.set(false));
         let head = join_results(&outs[idx.min(outs.len())..]);
         *crashed[k].lock().unwrap() = Some(Crashed { dir, head, txs, killed });
     });
+    let t1 = std::time::Instant::now();
     // Phase 2: per (k, variant) a copy of that directory is turned into the crash image and the
     // continuation runs on it.
     let mut work: Vec<(usize, String)> = Vec::new();
@@ -995,6 +1056,8 @@ pub fn run_enum(stream: &str, idx: usize, toks: &[String], marker: char) -> Stri
         }
     }
     let results: Vec<std::sync::Mutex<String>> = work.iter().map(|_| std::sync::Mutex::new(String::new())).collect();
+    // identical crash images (many selections of one sync window coincide) have identical continuations
+    let memo: std::sync::Mutex<std::collections::HashMap<Vec<u8>, String>> = Default::default();
     par_for(work.len(), &|i| {
         let (k, var) = &work[i];
         let g = crashed[*k].lock().unwrap();
@@ -1011,14 +1074,26 @@ pub fn run_enum(stream: &str, idx: usize, toks: &[String], marker: char) -> Stri
             }
         }
         cleanup_side_files(&dir);
-        let mut outs = Vec::new();
-        QUIET.with(|q| q.set(true));
-        run_from(stream, &dir, &mut txs, &toks[idx + 1..], &mut outs);
-        QUIET.with(|q| q.set(false));
+        let key = image_key(&dir);
+        let known = if std::env::var("NVH_NOMEMO").is_ok() { None } else { memo.lock().unwrap().get(&key).cloned() };
+        let tail = match known {
+            Some(t) => t,
+            None => {
+                let mut outs = Vec::new();
+                QUIET.with(|q| q.set(true));
+                run_from(stream, &dir, &mut txs, &toks[idx + 1..], &mut outs);
+                QUIET.with(|q| q.set(false));
+                let t = join_results(&outs);
+                memo.lock().unwrap().insert(key, t.clone());
+                t
+            }
+        };
         let _ = std::fs::remove_dir_all(&dir);
-        let tail = join_results(&outs);
         *results[i].lock().unwrap() = if tail.is_empty() { head } else { format!("{},{}", head, tail) };
     });
+    if std::env::var("NVH_PROF").is_ok() {
+        eprintln!("enum: {} steps phase1 {:?}, {} variants phase2 {:?}, distinct images {}", nk, t1 - t0, work.len(), t1.elapsed(), memo.lock().unwrap().len());
+    }
     for c in &crashed {
         if let Some(c) = c.lock().unwrap().as_ref() {
             let _ = std::fs::remove_dir_all(&c.dir);
@@ -1069,13 +1144,14 @@ pub fn step_for(stream: &str, ws: &[&str]) -> String {
                 Err(_) => "probe-failed".into(),
             }
         }
-        ["enum", idx, rest @ ..] => {
+        [kind @ ("enum" | "enumf"), idx, rest @ ..] => {
+            // enum: deaths simulated in-process (hook mode Freeze); enumf: real abort() in a forked process
             let toks: Vec<String> = rest.iter().map(|s| s.to_string()).collect();
             let Ok(idx) = idx.parse::<usize>() else { return "bad-op".into() };
             if toks.iter().any(|t| parse_tok(t).is_none()) {
                 return "bad-op".into();
             }
-            run_enum(stream, idx, &toks, if stream == "fault" { 'F' } else { 'X' })
+            run_enum(stream, idx, &toks, if stream == "fault" { 'F' } else if *kind == "enumf" { 'A' } else { 'X' })
         }
         _ => "bad-op".into(),
     }
@@ -1134,7 +1210,10 @@ fn generate(rng: &mut Rng, n: usize, tier: &str, out: &mut dyn Write) {
             // enumerate op i of the prefix h[..=i], then the continuation
             let mut t: Vec<String> = h[..=i].to_vec();
             t.extend(cont.iter().map(|s| s.to_string()));
-            writeln!(out, "enum {} {}", i, t.join(" ")).unwrap();
+            // every fifth history (and every history of the thorough tier's first dozen) with real
+            // process deaths in forked processes, the others with the death simulated in-process
+            let forked = c % 5 == 4 || (tier == "thorough" && c < 12);
+            writeln!(out, "{} {} {}", if forked { "enumf" } else { "enum" }, i, t.join(" ")).unwrap();
         }
         // multi-round random scenario
         let rounds = if tier == "thorough" { 4 } else { 2 };
